@@ -432,6 +432,18 @@ theorem metaBytes_v2_le (m : BK.MetaKVs) (hm : BK.metaOk .v2 m) : (BK.metaBytes 
   simp only [List.length_cons]
   omega
 
+/-- the sealed file of buckets below 2^29 hashes and a valid metadata block is far below the 2^61 bytes the reader
+    theorems ask for (same computation as `BK.sizes_ok`, with the sharper bound) -/
+theorem encode_length_lt (m : BK.MetaKVs) (sd : BK.Sealed) (hok : BK.SealedOk sd)
+    (hmeta : (BK.metaBytes .v2 m).length < 2 ^ 31) : (BK.encode .v2 m sd).length < 2 ^ 61 := by
+  have hn := BK.entries_length_le .v2 sd
+  have hb := BK.bodyBytes_length_le (BK.entries .v2 sd) (fun e he => hok.small e.1 e.2 (BK.entries_key .v2 sd e he).2)
+  have hr := BK.headerRest_length .v2 m (BK.entries .v2 sd)
+  simp only [BK.numPrefixes] at hn
+  have hmul : (BK.entries .v2 sd).length * (4 + 8 * 2 ^ 29) ≤ 65536 * (4 + 8 * 2 ^ 29) := Nat.mul_le_mul_right _ hn
+  rw [BK.encode, List.length_append, BK.headerBytes, List.length_append, B.le_length]
+  omega
+
 /-- **C05 end to end on the translated reader**: on the file the sealing writer produces (model `BK.encode .v2`), the
     translated `NewReader` succeeds and every translated `Reader.Has(sig)` returns, with a nil error, exactly the
     verdict of the abstract set (`hasA` over the sealed buckets) — for every signature list written, every valid
@@ -440,12 +452,20 @@ theorem gen_has_on_sealed (xx : List UInt8 → UInt64) (h : BK.Sig → Nat) (m :
     (fuel : Nat) (hf : 2 ^ 32 ≤ fuel)
     (h64 : ∀ s, h s < 2 ^ 64) (hm : BK.metaOk .v2 m)
     (hsmall : ∀ p, (BK.cleanSet ((BK.putAll h sigs).getD p [])).length < 2 ^ 29)
-    (hlen : (BK.encode .v2 m (BK.sealA .v2 (BK.putAll h sigs))).length < 2 ^ 61)
     (a b : UInt8) (rest : List UInt8) (hx : (xx (a :: b :: rest)).toNat = h (a :: b :: rest)) :
     ∃ rdr, bkNewReader fuel (memRd (BK.encode .v2 m (BK.sealA .v2 (BK.putAll h sigs)))) = .ok (rdr, Go.Error.nil) ∧
       bkReaderHas xx fuel rdr (a :: b :: rest) =
         .ok (BK.hasA (BK.sealA .v2 (BK.putAll h sigs)) (BK.prefixOf (a :: b :: rest)) (h (a :: b :: rest)), Go.Error.nil) := by
   have hmb := metaBytes_v2_le m hm
+  have hok : BK.SealedOk (BK.sealA .v2 (BK.putAll h sigs)) := by
+    apply BK.sealedOk_sealA .v2 _ _ hsmall
+    intro p x hx
+    by_cases hp : p < BK.numPrefixes
+    · obtain ⟨s, _, _, rfl⟩ := (BK.mem_putAll h sigs p x hp).1 hx
+      exact h64 s
+    · have : (BK.putAll h sigs).getD p [] = [] := by simp [Array.getD, BK.size_putAll, hp]
+      rw [this] at hx; simp at hx
+  have hlen := encode_length_lt m _ hok (by omega)
   obtain ⟨r, hopen, hhas⟩ := _root_.C05.has_bytes_agree .v2 h m sigs h64 hm (by omega) hsmall
   generalize hE : BK.encode .v2 m (BK.sealA .v2 (BK.putAll h sigs)) = l at *
   have hmax : 4 ≤ l.length → B.unle (l.take 4) ≤ 785945 := by
@@ -474,5 +494,46 @@ theorem gen_has_on_sealed (xx : List UInt8 → UInt64) (h : BK.Sig → Nat) (m :
     have : BK.hasA (BK.sealA .v2 (BK.putAll h sigs)) (BK.prefixOf [a, b]) (h (a :: b :: rest)) = false := by
       simpa using hh
     rw [this]; exact h1
+
+/-- the per-bucket bound follows from the number of signatures written -/
+theorem small_of_length (h : BK.Sig → Nat) (sigs : List BK.Sig) (hn : sigs.length < 2 ^ 29) (p : Nat) :
+    (BK.cleanSet ((BK.putAll h sigs).getD p [])).length < 2 ^ 29 := by
+  have h1 := BK.cleanSet_length_le ((BK.putAll h sigs).getD p [])
+  have h2 := BK.bucket_length_le h sigs BK.emptyW p
+  have h3 : (BK.emptyW.getD p []).length = 0 := by
+    unfold BK.emptyW
+    rw [Array.getD_eq_getD_getElem?, Array.getElem?_replicate]
+    split <;> rfl
+  unfold BK.putAll at *
+  omega
+
+/-- `gen_has_on_sealed` with the only size hypothesis a caller can check: fewer than 2^29 signatures written -/
+theorem gen_has_on_sealed_of_count (xx : List UInt8 → UInt64) (h : BK.Sig → Nat) (m : BK.MetaKVs) (sigs : List BK.Sig)
+    (fuel : Nat) (hf : 2 ^ 32 ≤ fuel) (h64 : ∀ s, h s < 2 ^ 64) (hm : BK.metaOk .v2 m) (hn : sigs.length < 2 ^ 29)
+    (a b : UInt8) (rest : List UInt8) (hx : (xx (a :: b :: rest)).toNat = h (a :: b :: rest)) :
+    ∃ rdr, bkNewReader fuel (memRd (BK.encode .v2 m (BK.sealA .v2 (BK.putAll h sigs)))) = .ok (rdr, Go.Error.nil) ∧
+      bkReaderHas xx fuel rdr (a :: b :: rest) =
+        .ok (BK.hasA (BK.sealA .v2 (BK.putAll h sigs)) (BK.prefixOf (a :: b :: rest)) (h (a :: b :: rest)), Go.Error.nil) :=
+  gen_has_on_sealed xx h m sigs fuel hf h64 hm (small_of_length h sigs hn) a b rest hx
+
+/-- the hypotheses are satisfiable by a non-trivial instance: three signatures (two sharing a prefix), one metadata pair,
+    the hash "first eight bytes, little endian", a query for one of the written signatures -/
+example :
+    let h : BK.Sig → Nat := fun s => B.unle (s.take 8)
+    let xx : List UInt8 → UInt64 := fun s => UInt64.ofNat (B.unle (s.take 8))
+    let sigs : List BK.Sig := [[1, 2, 3, 4, 5, 6, 7, 8, 9], [1, 2, 9, 9, 9, 9, 9, 9, 9], [255, 255, 0, 0, 0, 0, 0, 1, 7]]
+    ∃ rdr, bkNewReader (2 ^ 32) (memRd (BK.encode .v2 [([107], [118])] (BK.sealA .v2 (BK.putAll h sigs)))) = .ok (rdr, Go.Error.nil) ∧
+      bkReaderHas xx (2 ^ 32) rdr [1, 2, 3, 4, 5, 6, 7, 8, 9] =
+        .ok (BK.hasA (BK.sealA .v2 (BK.putAll h sigs)) (BK.prefixOf [1, 2, 3, 4, 5, 6, 7, 8, 9]) (h [1, 2, 3, 4, 5, 6, 7, 8, 9]), Go.Error.nil) := by
+  intro h xx sigs
+  have h64 : ∀ s, h s < 2 ^ 64 := by
+    intro s
+    have := BkHas.unle8_lt s
+    exact this
+  refine gen_has_on_sealed_of_count xx h [([107], [118])] sigs (2 ^ 32) (Nat.le_refl _) h64 ?_ (by decide) 1 2 [3, 4, 5, 6, 7, 8, 9] ?_
+  · exact ⟨by decide, by intro kv hkv; simp at hkv; subst hkv; exact ⟨by decide, by decide⟩⟩
+  · show (UInt64.ofNat (B.unle ([1, 2, 3, 4, 5, 6, 7, 8, 9].take 8))).toNat = B.unle ([1, 2, 3, 4, 5, 6, 7, 8, 9].take 8)
+    rw [UInt64.toNat_ofNat']
+    exact Nat.mod_eq_of_lt (BkHas.unle8_lt _)
 
 end GoTies.BkEnd
